@@ -552,6 +552,7 @@ class Engine:
             if jnp.any(ec != 0):
                 logger.warning(f"Warmup error code for {kid}: {ec}")
 
+        self._warmup_has_ended = True
         logger.info("Finished warmup")
 
     def _end_epoch(self):
